@@ -301,3 +301,63 @@ package caldav
 //@   ensures Q1: err == nil ==> req != nil && fresh(req) && dataRelC(*req, *calendarData)
 //@   ensures Q2: err != nil ==> req == nil && httpCode(err) == 400
 //@   ensures Q3: calendarData.Comp == nil ==> err == nil
+
+//@ -- C08 client side: the wire structs handed to the XML encoder denote the caller's request
+//@ spec calDataCarried(p *internal.Prop, c CalendarCompRequest) bool = p != nil && len(p.Raw) >= 1 && dynPtr(p.Raw[0].out, "*calendarDataReq") != nil
+//@   | && dynPtr(p.Raw[0].out, "*calendarDataReq").Comp != nil && crLevel(*dynPtr(p.Raw[0].out, "*calendarDataReq").Comp, c)
+//@   | && expandRel(dynPtr(p.Raw[0].out, "*calendarDataReq").Expand, c.Expand)
+//@ func caldav.encodeCalendarReq(c) (p, err)
+//@   requires R1: c != nil
+//@   ensures R1e: err == nil && calDataCarried(p, *c) && len(p.Raw) == 3
+//@ func caldav.decodeCalendarObjectList(ms) (cos, err)
+//@   trusted C10
+//@   requires R1: ms != nil
+//@ func caldav.(*Client).QueryCalendar(c, ctx, calendar, query) (cos, err)
+//@   reveal propRelC
+//@   requires R1: c != nil && c.ic != nil && query != nil && sentCount == 0
+//@   ensures Q1: sentCount == 1 && sentMethod == "REPORT" && sentPath == calendar
+//@   ensures Q2: let w : dynPtr(sentBody, "*calendarQuery") in w != nil && compLevel(w.Filter.CompFilter, query.CompFilter) && calDataCarried(w.Prop, query.CompRequest)
+//@ func caldav.(*Client).MultiGetCalendar(c, ctx, path, multiGet) (cos, err)
+//@   requires R1: c != nil && c.ic != nil && multiGet != nil && sentCount == 0
+//@   ensures G1: sentCount == 1 && sentMethod == "REPORT" && sentPath == path
+//@   ensures G2: let w : dynPtr(sentBody, "*calendarMultiget") in w != nil && calDataCarried(w.Prop, multiGet.CompRequest)
+//@   |   && (len(multiGet.Paths) == 0 ? (len(w.Hrefs) == 1 && w.Hrefs[0].Path == path)
+//@   |       : (len(w.Hrefs) == len(multiGet.Paths) && (forall j :: 0 <= j && j < len(multiGet.Paths) ==> w.Hrefs[j].Path == multiGet.Paths[j])))
+//@   loop 1 invariant I1: sentCount == 0 && calDataCarried(calendarMultiget.Prop, multiGet.CompRequest) && len(calendarMultiget.Hrefs) == len(multiGet.Paths) && fresh(calendarMultiget.Hrefs)
+//@   |   && (forall j :: 0 <= j && j < #i ==> calendarMultiget.Hrefs[j].Path == multiGet.Paths[j])
+
+//@ -- C08 server side: the backend is handed the request the wire structs denote, with the request path unchanged
+//@ func caldav.(*backend).propFindCalendarObject(b, ctx, propfind, co) (resp, err)
+//@   trusted C11
+//@   requires R1: b != nil && propfind != nil && co != nil
+//@   ensures P1: err == nil ==> resp != nil && len(resp.Hrefs) == 1 && resp.Hrefs[0].Path == co.Path
+//@   ensures P2: err != nil ==> okErr(err)
+//@ func caldav.(*Handler).handleQuery(h, r, w, query) (err)
+//@   reveal propRelC
+//@   requires R1: h != nil && h.Backend != nil && validReq(r) && w != nil && wstatus(w) == 0 && query != nil
+//@   requires R2: qcoCalls == 0
+//@   ensures Q1: qcoCalls <= 1 && (qcoCalls == 1 ==> qcoPath == r.URL.Path && qcoQuery != nil && compLevel(query.Filter.CompFilter, qcoQuery.CompFilter))
+//@   ensures Q1b: qcoCalls == 1 && query.Prop != nil && decodedOk(query.Prop, "calendarDataReq") ==> dataRelC(qcoQuery.CompRequest, decoded(query.Prop, "calendarDataReq"))
+//@   ensures Q2: err != nil ==> okErr(err)
+//@   ensures Q3: mutations == old(mutations)
+//@   ensures Q4: err == nil ==> wstatus(w) == 207
+//@   loop 1 invariant I1: qcoCalls == 1 && qcoPath == r.URL.Path && qcoQuery == &q && compLevel(query.Filter.CompFilter, q.CompFilter) && mutations == old(mutations) && wstatus(w) == 0
+//@   |   && (query.Prop != nil && decodedOk(query.Prop, "calendarDataReq") ==> dataRelC(q.CompRequest, decoded(query.Prop, "calendarDataReq")))
+//@   loop 1 invariant I2: cap(resps) == 0 || fresh(resps)
+//@ spec answersHrefC(r internal.Response, be Backend, ctx context.Context, path string, req *CalendarCompRequest) bool = len(r.Hrefs) == 1
+//@   | && (gcoErr(be, ctx, path, req) != nil
+//@   |     ? (r.Hrefs[0].Path == path && r.Status != nil && r.Status.Code == errStatus(gcoErr(be, ctx, path, req)))
+//@   |     : r.Hrefs[0].Path == gcoResult(be, ctx, path, req).Path)
+//@ func caldav.(*Handler).handleMultiget(h, ctx, w, multiget) (err)
+//@   requires R1: h != nil && h.Backend != nil && w != nil && wstatus(w) == 0 && multiget != nil
+//@   requires R2: gcoCalls == 0
+//@   ensures G1: gcoCalls > 0 && multiget.Prop != nil && decodedOk(multiget.Prop, "calendarDataReq") ==> gcoReq != nil && dataRelC(*gcoReq, decoded(multiget.Prop, "calendarDataReq"))
+//@   ensures G2: err == nil ==> wstatus(w) == 207 && servedMS != nil && len(servedMS.Responses) == len(multiget.Hrefs)
+//@   ensures G3: err == nil ==> (forall j :: 0 <= j && j < len(multiget.Hrefs) ==> answersHrefC(servedMS.Responses[j], h.Backend, ctx, multiget.Hrefs[j].Path, gcoReq))
+//@   ensures G4: err != nil ==> okErr(err)
+//@   ensures G5: mutations == old(mutations)
+//@   loop 1 invariant I1a: mutations == old(mutations) && wstatus(w) == 0
+//@   loop 1 invariant I1b: (cap(resps) == 0 || fresh(resps)) && len(resps) == #i
+//@   loop 1 invariant I1c: gcoCalls >= 0 && (gcoCalls > 0 ==> gcoReq == &dataReq) && (#i > 0 ==> gcoCalls > 0)
+//@   loop 1 invariant I1d: multiget.Prop != nil && decodedOk(multiget.Prop, "calendarDataReq") ==> dataRelC(dataReq, decoded(multiget.Prop, "calendarDataReq"))
+//@   loop 1 invariant I2: forall j :: 0 <= j && j < #i ==> answersHrefC(resps[j], h.Backend, ctx, multiget.Hrefs[j].Path, &dataReq)
